@@ -32,6 +32,16 @@ PAIRS = {'asjson': 'fromjson', 'compact_value': 'decompact_value', 'json.dumps':
 
 
 def _stages(fn) -> list[str]:
+    """the codec stages applied to the data, in application order: statements in source order, nested calls innermost first
+    along the first argument (`hashed(tty_escape(class_escape(s)))` = class_escape, tty_escape, hashed)"""
+    vocab = set(PAIRS) | set(PAIRS.values())
+
+    def chain(e) -> list[str]:
+        if isinstance(e, ast.Call):
+            inner = chain(e.args[0]) if e.args else []
+            nm = dotted(e.func)
+            return inner + ([nm] if nm in vocab else [])
+        return []
     out = []
     for n in walk_no_defs(fn.node):
         v = None
@@ -39,9 +49,10 @@ def _stages(fn) -> list[str]:
             v = n.value
         elif isinstance(n, ast.Return) and n.value is not None:
             v = n.value
-        if isinstance(v, ast.Call):
-            out.append((n.lineno, dotted(v.func)))
-    return [s for _, s in sorted(out)]
+        if v is not None:
+            for j, nm in enumerate(chain(v)):
+                out.append(((n.lineno, j), nm))
+    return [s_ for _, s_ in sorted(out)]
 
 
 def r1_mirror(a, tier):
@@ -128,10 +139,14 @@ def r2_codecs(a, tier):
     # encoder tokens: ESC = dd, MARK = d c N d (c != d), LIT = [^d]
     tokens = f'(?:{d}{d}|{d}[^{d}][0-9]+{d}|[^{d}])'
     # decoder passes, in order
+    modre = {nm: v.args[0].value for nm, v in a.p.module(cm).assigns.items() if isinstance(v, ast.Call) and dotted(v.func) == 're.compile'
+             and v.args and isinstance(v.args[0], ast.Constant) and isinstance(v.args[0].value, str)}
     passes = []
     for n in sorted((x for x in walk_no_defs(decf.node) if isinstance(x, ast.Call)), key=lambda x: (x.lineno, x.col_offset)):
         if dotted(n.func) in ('re.compile',) and n.args and isinstance(n.args[0], ast.Constant):
             passes.append(('regex', n.args[0].value, n.lineno))
+        elif isinstance(n.func, ast.Attribute) and n.func.attr in ('sub', 'subn') and isinstance(n.func.value, ast.Name) and n.func.value.id in modre:
+            passes.append(('regex', modre[n.func.value.id], n.lineno))  # a regex compiled once at module level
         elif isinstance(n.func, ast.Attribute) and n.func.attr == 'replace' and len(n.args) == 2 and all(isinstance(x, ast.Constant) for x in n.args):
             passes.append(('replace', (n.args[0].value, n.args[1].value), n.lineno))
     rep.add({'codec': 'rle_decode', 'passes': [(k, v) for k, v, _ in passes]})
